@@ -38,6 +38,11 @@
     {"tmp-symbol-shadowing-iterator", "variables x[3]; constraints for i=1:2; z=x(i); for i=3:3; z+x(i)>=0; end end end", NULL},
     {"nested-loops-and-sum", "constants n=3; variables x[n][n]; constraints for i=1:n; for j=i:n; x(i,j)=x(j,i); end; sum(k=1:n, x(i,k)^k)<=i; end end", NULL},
     {"empty-loop", "variables x; constraints for i=3:1; x>=i; end; x<=0; end", NULL},
+    // ---- ball constants <centre,radius>: the interval must contain the whole ball (radius rounded upward)
+    {"ball-third", "variables x; constraints x in <0,1/3>; end", NULL},
+    {"ball-pi", "variables x,y; constraints x*<1,pi>+y=<0,pi/4>; end", NULL},
+    {"ball-domain-and-vector", "constants r=1/3; variables x in <0,r>, v[2] in <(1;2),0.1>; constraints x+v(1)<=<2,[0.5,2]>; end", NULL},
+    {"ball-exact", "variables x; constraints x=<1,0.5>; end", "variables x; constraints x=[0.5,1.5]; end"},
     // ---- a single range index on a matrix selects rows
     {"single-range-on-matrix", "variables A[3][4]; constraints A(2:3)(1,2)=1; A(2:3)(2,4)<=2; end", "variables A[3][4]; constraints A(2,2)=1; A(3,4)<=2; end"},
     {"single-range-on-tall-matrix", "variables A[4][2],y[2]; constraints A(1:3)*y=(1;2;3); end", "variables A[4][2],y[2]; constraints A(1:3,:)*y=(1;2;3); end"},
